@@ -5,7 +5,7 @@ import z3
 from sx import core as S, env as E, pl, plh, families as F, wd
 
 PROPERTY = "C10"
-REGIONS = ["generated-id-coincidence",  "leaf-leaf-same-id", "leaf-compound-same-id", "compound-compound-same-id", "self-reference", "duplicate-child",
+REGIONS = ["asked-again-after-the-object-changed", "generated-id-coincidence",  "leaf-leaf-same-id", "leaf-compound-same-id", "compound-compound-same-id", "self-reference", "duplicate-child",
            "identical-sharing", "plain-tree", "accepted", "rejected"]
 BOUNDS = ("adversarial skeletons with <=3 occurrences of a reused id (leaf/leaf, leaf/compound, compound/compound), self references, duplicate children, "
           "diamond sharing, plain trees; boxes of the reused leaves and thresholds/signs of the reused compounds symbolic (boxes in [-32768,32767], "
@@ -86,6 +86,14 @@ def instantiations(tier, seed):
             sk = _quickify(sk)
         names = F.ALT_NAMES[(k + seed) % len(F.ALT_NAMES)] if cls == "plain-tree" else {}
         out.append({"part": "errors", "cls": cls, "model": F.rename(sk, names)})
+    # errors() asked again after the object has been validated/flattened once and then been changed through the public API (assume() with a
+    # dictionary naming sub-proposition ids rebinds variables inside the model it is called on: the open C09 finding): the second answer must
+    # describe the object as it is NOW
+    N, a, b, c, d = F.N, F.a, F.b, F.c, F.d
+    for sk, dct in [(N("Any", N("All", N("Any", a(), b(), id="S"), c(), id="B"), N("All", N("Any", a(), b(), id="S"), d(), id="C"), id="A"), ["B", "S"]),
+                    (N("All", N("All", N("Any", a(), b(), id="S"), F.V("p"), id="P"), N("Any", N("Any", a(), b(), id="S"), F.V("q"), id="Q"), id="A"), ["P", "S"]),
+                    (N("All", N("Any", N("All", a(), b(), id="S"), c(), id="B"), N("Any", N("All", a(), b(), id="S"), d(), id="C"), id="A"), ["S", "C"])]:
+        out.append({"part": "requery", "cls": "identical-sharing", "model": sk, "assume_ids": dct})
     out.append({"kind": "mutant", "mutant": "accept_all", "part": "errors", "cls": "leaf-leaf-same-id", "model": skeletons()[0][1]})
     out.append({"kind": "mutant", "mutant": "reject_all", "part": "errors", "cls": "plain-tree", "model": skeletons()[-1][1]})
     return out
@@ -117,11 +125,63 @@ def _leaf_compound_clash(spec):
     return bool(leaf_ids & cmp_ids) and not wd.cyclic(spec)
 
 
+def _requery(ns, spec, run):
+    model_spec = spec["model"]
+    isleaf = lambda n: issubclass(n.__class__, ns.puan.variable)    # noqa
+
+    def fn(ctx):
+        ctx.preregister({0, 1})
+        vals = {i: ctx.int("o_" + i, 0, 1) for i in spec["assume_ids"]}
+        err = e1 = e2 = wd2 = None
+        S.HASH_MODE = "decided"
+        try:
+            m = pl.build(ns, model_spec, {})
+            with E.inj_hash_shadow():
+                e1 = list(m.errors())
+                m.flatten()
+                m.variables
+                try:
+                    m.assume(dict(vals))
+                except Exception:   # noqa
+                    pass
+                e2 = list(m.errors())
+            wd2 = wd.welldefined_objects(isleaf, m, lambda x: S.term(x), lambda a, b: a == b, lambda xs: z3.And(xs), z3.BoolVal(True), z3.BoolVal(False))
+        except Exception as ex:   # noqa
+            err = "%s: %s" % (type(ex).__name__, ex)
+        finally:
+            S.HASH_MODE = "structural"
+        return dict(vals=vals, e1=e1, e2=e2, wd2=wd2, err=err)
+
+    def on_path(ctx, d):
+        run.path(ctx)
+        run.region("asked-again-after-the-object-changed")
+
+        def conc(m):
+            return {"env": {}, "assume": {k: S.model_int(m, v) for k, v in d["vals"].items()}}
+        if d["err"] is not None:
+            run.obligation(ctx, "raises", True, conc, extra=d["err"])
+            return
+        if d["e1"] != []:
+            run.obligation(ctx, "well-defined-but-rejected", True, conc, extra=str(d["e1"]))
+            return
+        if d["e2"] == []:
+            run.region("accepted")
+            run.obligation(ctx, "accepted-but-not-well-defined (second query)", z3.Not(d["wd2"]), conc)
+        else:
+            run.region("rejected")
+            run.obligation(ctx, "well-defined-but-rejected (second query)", d["wd2"], conc, extra=str(d["e2"]))
+        run.sample({"class": "requery", "model": pl.show(model_spec), "errors_after": [str(x) for x in d["e2"]]})
+    st = S.explore(fn, on_path, max_paths=2000, wall=600)
+    return run.result(st)
+
+
 def run_inst(spec, run):
     ns = E.load_repo()
     mu = spec.get("mutant")
     if spec["part"] == "hash":
         return _hash(ns, spec, run)
+    if spec["part"] == "requery":
+        return _requery(ns, spec, run)
     model_spec = spec["model"]
 
     nums = {0, 1}
